@@ -2,38 +2,67 @@
 
 Proof      : coq/Props/C01.v over Model/Commit.v (interleaving machine of the OCC commit protocol, any number
              of committers, any clock): linear chain, each acknowledged commit reflected exactly once in
-             pointer order, raised commits not reflected.
-Tie        : trace validation.  Real Table / MetadataManager / FileLock code runs in real threads under
-             harness/lib/sched.py (deterministic scheduler, protocol-level yield points, virtual clock); the
-             observed storage log is projected onto the model's event alphabet and `Commit.run_strict`
-             must accept it event by event (each event carries what the code read / decided); final pointer,
-             flip order and outcomes must agree.  A storage call the projection does not know is a failure.
+             pointer order, raised commits not reflected -- for storage with real mutual exclusion (`lockkind = Excl`
+             or conditional writes).  What `Excl` MEANS on a local filesystem is the layer below, Model/ProcLock.v:
+             FileLock handles (one per Table handle) placed in OS processes by an arbitrary topology, the descriptor
+             table of the lock file and the kernel's advisory lock under the ownership discipline of the primitive the
+             source calls (Gen/GenFileLock.v, regenerated: flock = owned by the open file description).  Proved for
+             every topology and every event list: at most one handle believes it holds, the handle's flag (the fence of
+             the commit point) is the kernel's owner, every event moves that view the way Commit.v's `step` moves
+             `w_lock`, and nothing another handle does -- in the holder's process or elsewhere -- drops the holder's lock
+             (C01_lock_exclusive_any_topology, C01_lock_refines_excl, C01_lock_not_dropped_by_others,
+             C01_lock_skeleton_regenerated); refutation witnesses show how process-owned locks (POSIX record locks) break
+             it as soon as one process has two handles.
+Tie        : trace validation.  Real Table / MetadataManager / FileLock code runs under harness/lib/sched.py
+             (deterministic scheduler, protocol-level yield points, virtual clock) with the committers as threads of one
+             process AND placed in several OS processes (harness/lib/procsched.py: worker processes stepped over pipes at
+             the same yield points, one merged log; a worker can be SIGKILLed inside its critical section = the machines'
+             ECrash / LKill); the observed storage log is projected onto the model's event alphabet
+             and `Commit.run_strict` must accept it event by event (each event carries what the code read / decided); final
+             pointer, flip order and outcomes must agree.  A storage call the projection does not know is a failure.
+             Lock layer: every primitive on the lock file (open, non-blocking flock, unlock, close), per FileLock handle
+             and process, with the REAL kernel's answer, must be accepted by `ProcLock.lrun_strict` under the regenerated
+             discipline and the run's topology (model kernel = real kernel, event by event), all descriptors closed and
+             the lock free at the end, and the protocol-level lock answers must be the kernel's.  A locking primitive
+             outside that vocabulary (lockf, fcntl, unlink of the lock file ...) is a correspondence failure.
 Oracle     : implementation-only serializability oracle: the final table (independent reader) must equal
-             the serial replay, in pointer-flip order, of exactly the commits that reported success.
+             the serial replay, in pointer-flip order, of exactly the commits that reported success -- on every schedule
+             executed, in-process and across processes.
 """
 from __future__ import annotations
 
 import itertools
+import random as _r
 from typing import Any, Dict, List, Optional, Tuple
 
-from harness.lib import coqbuild, protocol as P, sched as S
+from harness.lib import coqbuild, procsched as PS, protocol as P, sched as S
+from harness.lib.coqio import Some
 
 LEVEL = "proof"
 THEOREMS = ["C01_serializable", "C01_acked_exactly_once", "C01_raised_not_reflected", "C01_chain_linear",
-            "C01_skeleton_regenerated", "C01_conflict_retried"]
-REQ = ["DS.Model.Commit"]
+            "C01_skeleton_regenerated", "C01_conflict_retried",
+            "C01_lock_exclusive_any_topology", "C01_lock_refines_excl", "C01_lock_not_dropped_by_others", "C01_lock_skeleton_regenerated"]
+REQ = ["DS.Model.Commit", "DS.Gen.GenFileLock", "DS.Model.ProcLock"]
 MANIFEST_ENTRY = {
     "level_text": "Serializability of the OCC commit protocol proved in Coq (C01_serializable and companions) by an inductive "
                   "invariant over every schedule of any number of committers with any clock readings, for exclusive-lock and CAS "
-                  "storage; the model is tied to the code by trace validation: real commits run under a deterministic scheduler "
-                  "at storage-operation granularity and every observed protocol event must be accepted by the model's strict "
-                  "run; the validation kernel, the stamp rule, the action skeleton of MetadataManager.commit and the retry / handler "
-                  "tables are regenerated from the source by translator/gen_commit.py (Gen/GenCommit.v) and the proofs re-run "
-                  "against them (C01_skeleton_regenerated); an implementation-only serializability oracle judges every explored schedule",
-    "level_note": "trusted: Coq kernel; translator/gen_commit.py; projection of the storage log onto model events (harness/lib/protocol.py); flock "
-                  "exclusivity (kernel; C19); metadata files are write-once so pointer read + file read are one step; table "
-                  "content abstracted to the list of applied operations (their meaning is C15)",
-    "technique": "Coq invariant proof over an interleaving machine with translator-regenerated decision kernels and skeleton + trace validation of real executions",
+                  "storage; the exclusive lock of a local table is itself modelled and proved (Model/ProcLock.v: FileLock handles "
+                  "in OS processes under an arbitrary process topology, descriptor table and kernel lock with the ownership "
+                  "discipline of the primitive the source calls; C01_lock_exclusive_any_topology, C01_lock_refines_excl, "
+                  "C01_lock_not_dropped_by_others); the model is tied to the code by trace validation: real commits run under a "
+                  "deterministic scheduler at storage-operation granularity, as threads of one process and distributed over "
+                  "several OS processes (including the death of a process inside its critical section), and every observed protocol event and every primitive on the lock file (with the real "
+                  "kernel's answer) must be accepted by the models' strict runs; the validation kernel, the stamp rule, the action "
+                  "skeleton of MetadataManager.commit, the retry / handler tables (translator/gen_commit.py) and FileLock's "
+                  "primitive skeleton and lock discipline (translator/gen_filelock.py) are regenerated from the source and the "
+                  "proofs re-run against them; an implementation-only serializability oracle judges every explored schedule",
+    "level_note": "trusted: Coq kernel; translator/gen_commit.py, gen_filelock.py; projection of the storage log and of the lock-file "
+                  "primitives onto model events (harness/lib/protocol.py, props/c01.py project_locks); the kernel's flock semantics "
+                  "as written in Model/ProcLock.v (grants / drops), compared with the real kernel's answers on every run; metadata "
+                  "files are write-once so pointer read + file read are one step; table content abstracted to the list of applied "
+                  "operations (their meaning is C15); descriptors are not duplicated or inherited (the library never forks or dups)",
+    "technique": "Coq invariant proofs over two interleaving machines (commit protocol; lock layer under arbitrary process topologies) with "
+                 "translator-regenerated kernels and skeletons + trace validation of real executions, in-process and multi-process",
     "design_ref": "DESIGN.md section 5 C01",
 }
 
@@ -75,6 +104,8 @@ STOPS = {
     "flock": lambda op, path: op == "LockFlock",
     "flip": lambda op, path: op in ("write_file", "write_file_cas") and P.path_class(path) == "hint",
     "metaw": lambda op, path: op == "write_file" and P.path_class(path) == "meta",
+    "fence": lambda op, path: op == "Fence",
+    "lockclose": lambda op, path: op == "LockClose",
     "end": lambda op, path: False,
 }
 
@@ -119,6 +150,159 @@ def lock_handoff_scripts(n: int) -> List[List[Tuple[str, str]]]:
     return out
 
 
+
+# ---------------------------------------------------------------------------------------------------- process topologies
+_POOL: List[Any] = [None]
+
+
+def _pool() -> PS.Pool:
+    if _POOL[0] is None:
+        _POOL[0] = PS.Pool()
+    return _POOL[0]
+
+
+def _close_pool() -> None:
+    if _POOL[0] is not None:
+        _POOL[0].close()
+        _POOL[0] = None
+
+
+def _run(ctx, case: Dict[str, Any], chooser_factory, tag: str, inject=None) -> P.CaseResult:
+    """One case under the scheduler: actors as threads of the harness process, or -- case['procs'] -- placed in OS
+    processes (harness/lib/procsched.py).  The lock-layer trace of the run is attached to the result either way."""
+    if case.get("procs") is not None:
+        if inject:
+            raise ValueError("fault injection is per harness-process actor")
+        k = case.get("kill")
+        return PS.run_case(ctx.scratch, _fix_case(case), chooser_factory, _pool(), tag=tag + "p",
+                           kill={"actor": k["actor"], "when": STOPS[k["stop"]]} if k else None)
+    res = P.run_case(ctx.scratch, _fix_case(case), chooser_factory, tag=tag, inject=inject)
+    res.locklog = list(getattr(P.S_current(), "locklog", []))
+    return res
+
+
+def contention_scripts(n: int, stops: List[str]) -> List[List[Tuple[str, str]]]:
+    """X is parked INSIDE its critical section (before the metadata-file write / the fence / the pointer flip / the
+    release); then every other committer runs as far as it gets, in every order -- each tries the lock at least once,
+    whatever process it lives in --; then X goes on, then the others finish.  (The shape of the lock layer's refutation
+    witnesses, coq/Props/C01.v C01_process_owned_lock_not_exclusive: X holds, Y touches the lock file, Z attempts.)"""
+    out = []
+    names = [f"A{i}" for i in range(n)]
+    for perm in itertools.permutations(names):
+        x, rest = perm[0], list(perm[1:])
+        for st in stops:
+            out.append([(x, st)] + [(y, "end") for y in rest] + [(x, "end")] + [(y, "end") for y in rest])
+    return out
+
+
+def release_window_scripts(n: int, stops: List[str]) -> List[List[Tuple[str, str]]]:
+    """The file lock at the granularity of EVERY primitive (fine_locks = "all"): X has committed and is inside release(),
+    between the unlock and the close of its descriptor; Y takes the lock in that window and goes on
+    to its metadata write / pointer flip; X finishes its release; Z runs to the end; Y finishes.  (What X's close does --
+    to whose descriptor -- while Y holds is the lock layer's KClose-after-KUnlock interleaved with another handle's grant.)"""
+    out = []
+    names = [f"A{i}" for i in range(n)]
+    for perm in itertools.permutations(names):
+        x, y, rest = perm[0], perm[1], list(perm[2:])
+        for st in stops:
+            out.append([(x, "lockclose"), (y, st), (x, "end")] + [(z, "end") for z in rest] + [(y, "end"), (x, "end")])
+    return out
+
+
+PROC_TOPOLOGIES = {
+    2: [[[0], [1]], [[], [0, 1]]],
+    3: [[[0, 1], [2]], [[0], [1, 2]], [[0], [1], [2]]],
+    4: [[[0, 1], [2, 3]], [[0], [1, 2, 3]], [[0, 3], [1], [2]]],
+}
+
+
+def project_locks(res: P.CaseResult) -> Tuple[str, int]:
+    """The run's lock-layer trace as an expression of Model/ProcLock.v: handles = FileLock instances in order of first
+    use, topology = the OS process each lives in, one event per primitive with the REAL kernel's answer; the model's
+    strict run (its kernel, the regenerated discipline) must accept every event.  Returns (Gallina term, #opens).
+    Raises Nonconforming on a primitive outside the vocabulary (open, non-blocking exclusive flock, flock unlock, close)."""
+    handles: Dict[Tuple[int, int], int] = {}
+    procs: List[int] = []
+    pidx: Dict[int, int] = {}
+    last: Dict[int, str] = {}
+    evs: List[str] = []
+    opens = 0
+    for i, e in enumerate(res.locklog):
+        if e["prim"] == "kill":
+            if e["pid"] in pidx:                   # a process none of whose handles ever touched the lock file holds nothing
+                evs.append(f"LKill {pidx[e['pid']]}")
+            continue
+        if not e.get("known", False):
+            raise P.Nonconforming(f"lock primitive outside the vocabulary of the lock layer (os.open, fcntl.flock LOCK_EX|LOCK_NB, "
+                                  f"fcntl.flock LOCK_UN, os.close) at locklog[{i}]: {e['prim']} by {e['actor']}")
+        if e.get("handle") is None:
+            raise P.Nonconforming(f"primitive on the lock file outside a FileLock instance at locklog[{i}]: {e['prim']} by {e['actor']}")
+        key = (e["pid"], e["handle"])
+        if key not in handles:
+            handles[key] = len(handles)
+            procs.append(pidx.setdefault(e["pid"], len(pidx)))
+        h = handles[key]
+        prim = e["prim"]
+        if prim == "open":
+            if not e["ok"]:
+                raise P.Nonconforming(f"the lock file could not be opened at locklog[{i}] ({e['actor']})")
+            k = "KOpen"
+            opens += 1
+        elif prim == "trylock":
+            k = "KTry true" if e["ok"] else "KTry false"
+        elif prim == "unlock":
+            k = "KUnlock"
+        elif prim == "close":
+            k = "KCloseRefused" if last.get(h) == "KTry false" else "KClose"
+        else:
+            raise P.Nonconforming(f"unknown lock primitive at locklog[{i}]: {prim}")
+        last[h] = k
+        evs.append(f"LStep {h} ({k})")
+    topo = "(fun h => nth h [" + "; ".join(str(p) for p in procs) + "] 0)%nat"
+    term = (f"match lrun_strict gen_lock_disc {topo} linit ([" + "; ".join(evs) + "]%nat) 0%nat with "
+            f"| inl s => (1, lsummary s) | inr i => (0, (None, i, 0%nat)) end")
+    return term, opens
+
+
+def project_with_kills(res: P.CaseResult, n: int, cas: bool, lease: bool):
+    """protocol.project; a process killed by the harness (log entry ProcessKilled, one per actor that lived in it) becomes the
+    machine's ECrash for that actor at that point of the trace."""
+    kills = [i for i, e in enumerate(res.log) if e["op"] == "ProcessKilled"]
+    if not kills:
+        return P.project(res, n, cas=cas, lease=lease)
+    full = P.CaseResult()
+    full.initial = res.initial
+    full.log = [e for e in res.log if e["op"] != "ProcessKilled"]
+    events, vids, notes = P.project(full, n, cas=cas, lease=lease)
+    inserted = 0
+    for k, i in enumerate(kills):
+        pre = P.CaseResult()
+        pre.initial = res.initial
+        pre.log = [e for e in res.log[:i] if e["op"] != "ProcessKilled"]
+        ev_pre, _v, _n = P.project(pre, n, cas=cas, lease=lease)
+        if ev_pre != events[:inserted + len(ev_pre)][:len(ev_pre)] and [x for x in events[:len(ev_pre) + inserted] if x[1] != "ECrash"] != ev_pre:
+            raise P.Nonconforming("the trace before the process death is not a prefix of the whole trace")
+        events.insert(len(ev_pre) + inserted, (int(res.log[i]["actor"][1:]), "ECrash"))
+        inserted += 1
+    return events, vids, notes
+
+
+def lock_attempts_agree(res: P.CaseResult) -> Optional[str]:
+    """Per actor, the answers of the lock attempts seen at the protocol level (LockTry) are the kernel's answers to that
+    actor's flock attempts at the lock layer."""
+    proto: Dict[str, List[bool]] = {}
+    layer: Dict[str, List[bool]] = {}
+    for e in res.log:
+        if e["op"] == "LockTry" and e["result"] is not None:
+            proto.setdefault(e["actor"], []).append(e["result"] == "ok")
+    for e in res.locklog:
+        if e["prim"] == "trylock":
+            layer.setdefault(e["actor"], []).append(bool(e["ok"]))
+    if proto != layer:
+        return f"protocol-level lock attempts {proto} != kernel answers at the lock layer {layer}"
+    return None
+
+
 def explore(ctx, case: Dict[str, Any], max_preempt: int, limit: int):
     """Bounded-preemption enumeration by re-execution (runs are deterministic)."""
     from collections import deque
@@ -128,7 +312,7 @@ def explore(ctx, case: Dict[str, Any], max_preempt: int, limit: int):
     while queue and n < limit:
         dev = queue.popleft()
         inj = {f"A{i}": mk() for i, mk in (case.get("injectors") or {}).items()}
-        res = P.run_case(ctx.scratch, _fix_case(case), dev_chooser(dict(dev)), tag="c01", inject=inj or None)
+        res = _run(ctx, case, dev_chooser(dict(dev)), tag="c01", inject=inj or None)
         key = tuple(res.schedule)
         if key in seen:
             continue
@@ -290,23 +474,57 @@ def _initial_rows_by_file(res: P.CaseResult) -> Dict[str, List[int]]:
 def check_runs(ctx, name: str, runs: List[Tuple[Dict[str, Any], Any, P.CaseResult]]) -> None:
     exprs, kept = [], []
     bad = []
+    lbad = []
     for case, dev, res in runs:
-        ctx.count(1, (name, repr(case["ops"]), case.get("clock"), case.get("topology"), tuple(res.schedule)))
+        ctx.count(1, (name, repr(case["ops"]), case.get("clock"), case.get("topology"), repr(case.get("procs")), tuple(res.schedule)))
         why = serial_oracle(case, res)
         if why:
-            ctx.violation(f"not-serializable:{case.get('clock', 'tick')}:{'+'.join(o['kind'] + ('-' + o['which'] if 'which' in o else '') for o in case['ops'])}",
+            where = "procs" + "+".join(str(len(g)) for g in case["procs"]) + ":" if case.get("procs") is not None else ""
+            ctx.violation(f"not-serializable:{where}{case.get('clock', 'tick')}:{'+'.join(o['kind'] + ('-' + o['which'] if 'which' in o else '') for o in case['ops'])}",
                           why, {"case": _case_json(case), "deviations": list(dev), "schedule": res.schedule, "outcomes": res.outcomes})
+        # ---- lock layer (local filesystem): the primitives on the lock file against Model/ProcLock.v
+        lexpr, opens = None, 0
+        if case.get("backend", "local") == "local" and case.get("lock", "real") == "real" and getattr(res, "locklog", None) is not None:
+            try:
+                lexpr, opens = project_locks(res)
+                dis = lock_attempts_agree(res)
+                if dis:
+                    lbad.append({"case": _case_json(case), "schedule": res.schedule, "disagreement": dis})
+            except P.Nonconforming as e:
+                lbad.append({"case": _case_json(case), "schedule": res.schedule, "nonconforming": str(e)})
         try:
-            events, vids, _notes = P.project(res, len(case["ops"]), cas=(case.get("backend") == "s3cas"),
-                                            lease=(case.get("backend") == "s3cas" and case.get("lock", "real") == "real"))
+            events, vids, _notes = project_with_kills(res, len(case["ops"]), cas=(case.get("backend") == "s3cas"),
+                                                      lease=(case.get("backend") == "s3cas" and case.get("lock", "real") == "real"))
         except P.Nonconforming as e:
             bad.append({"case": _case_json(case), "schedule": res.schedule, "nonconforming": str(e)})
+            events, vids = None, {}
+        cexpr = model_expr(case, res, events) if events is not None else None
+        if cexpr is None and lexpr is None:
             continue
-        exprs.append(model_expr(case, res, events))
-        kept.append((case, dev, res, events, vids))
+        exprs.append(f"({cexpr or '0'}, {lexpr or '0'})")
+        kept.append((case, dev, res, events, vids, cexpr is not None, lexpr is not None, opens))
     vals = coqbuild.coq_eval(REQ, exprs, chunk=60) if exprs else []
-    for (case, dev, res, events, vids), val in zip(kept, vals):
-        ok, (ptr_or_idx, ops_final, hist, codes) = val
+    nlock = 0
+    for (case, dev, res, events, vids, has_c, has_l, opens), val in zip(kept, vals):
+        # Coq prints pairs left-nested: ((ok, summary), lock) arrives as (ok, summary, lock)
+        if has_c:
+            cval, lval = (val[0], val[1]), val[2]
+        else:
+            cval, lval = None, val[1]
+        if has_l:
+            nlock += 1
+            lok, (view, nxt, still_open) = lval
+            if lok != 1:
+                lbad.append({"case": _case_json(case), "schedule": res.schedule, "rejected_lock_event_index": nxt,
+                             "events": [(e["actor"], e["pid"], e["prim"], e["ok"]) for e in res.locklog[max(0, nxt - 6):nxt + 1]],
+                             "why": "the kernel's answer to this primitive (or its order in the handle's program) is not the lock layer's"})
+            elif not res.deadlock and (view is not None or nxt != opens or still_open != 0):
+                lbad.append({"case": _case_json(case), "schedule": res.schedule,
+                             "model_final": {"holder": view.x if isinstance(view, Some) else view, "opened": nxt, "still_open": still_open},
+                             "impl_final": {"holder": None, "opened": opens, "still_open": 0}})
+        if not has_c:
+            continue
+        ok, (ptr_or_idx, ops_final, hist, codes) = cval
         if ok != 1:
             i = ptr_or_idx
             bad.append({"case": _case_json(case), "schedule": res.schedule, "rejected_event_index": i,
@@ -315,11 +533,18 @@ def check_runs(ctx, name: str, runs: List[Tuple[Dict[str, Any], Any, P.CaseResul
         final_vid = vids.get(res.final.get("pointer"), -1)
         flips = [int(e["actor"][1:]) for e in res.log if e["op"] in ("write_file", "write_file_cas") and P.path_class(e["path"]) == "hint" and e["result"] == "ok"]
         exp_codes = [1 if res.outcomes[f"A{i}"][0] == "ok" and res.outcomes[f"A{i}"][1] != "noop" else
-                     (2 if "ConcurrentModification" in res.outcomes[f"A{i}"][1] else 0) for i in range(len(case["ops"]))]
+                     (2 if "ConcurrentModification" in res.outcomes[f"A{i}"][1] else
+                      (4 if res.outcomes[f"A{i}"][1].startswith("ProcessKilled") else 0)) for i in range(len(case["ops"]))]
         if ptr_or_idx != final_vid or [a for (_v, a) in hist] != flips or list(codes) != exp_codes:
             bad.append({"case": _case_json(case), "schedule": res.schedule, "model": {"ptr": ptr_or_idx, "hist": hist, "codes": codes},
                         "impl": {"ptr": final_vid, "flips": flips, "codes": exp_codes, "outcomes": res.outcomes}})
     ctx.correspondence(name, len(runs), bad)
+    if nlock or lbad:
+        ctx.correspondence("lock-layer", nlock + sum(1 for d in lbad if "nonconforming" in d), lbad)
+        ctx.stats["lock_layer_traces"] = nlock
+        ctx.stats["lock_layer_primitives"] = sum(len(getattr(r, "locklog", None) or []) for _c, _d, r in runs)
+        ctx.stats["lock_attempts_refused"] = sum(1 for _c, _d, r in runs for e in (getattr(r, "locklog", None) or [])
+                                                 if e["prim"] == "trylock" and e["ok"] is False)
 
 
 def _case_json(case: Dict[str, Any]) -> Dict[str, Any]:
@@ -330,15 +555,31 @@ def run(ctx) -> None:
     ctx.rule = ("schedules of 2-4 committers at protocol yield points (pointer reads, lock attempts, validation, metadata-file "
                 "write, fence, flip, release, marker cleanup, retry sleep), enumerated with bounded preemptions and sampled at "
                 "random; x {separate, shared handle} x clock {tick, coarse, frozen} x operation mixes "
-                "(append / expire / delete-snapshot old|current); distinct = distinct executed schedule per case")
+                "(append / expire / delete-snapshot old|current) x process topology {all committers threads of one process; "
+                "committers placed in 2-3 OS processes: several handles in one process next to handles in others, one process per "
+                "handle, shared or separate handles per process} with contention scripts (one committer parked inside its critical "
+                "section while every other tries the lock, all placements and orders), release-window scripts at the granularity of "
+                "every lock-file primitive (one committer between the unlock and the close of its release while another takes the "
+                "lock), a process killed inside its critical section, bounded-preemption enumeration and random schedules; "
+                "distinct = distinct executed schedule per case")
     ctx.trusted_base += [
         "harness/lib/sched.py + protocol.py: deterministic scheduler, projection of the storage log onto Model/Commit.v events",
-        "kernel flock exclusivity for the local lock (Excl); write-once metadata files",
+        "harness/lib/procsched.py: worker processes stepped over pipes (same yield points, merged log)",
+        "kernel flock semantics as modelled in Model/ProcLock.v (compared with the real kernel's answers on every run); write-once metadata files",
     ]
     ctx.assumptions += ["pointer intact (C10 covers damaged pointers)", "no garbage collection concurrent with commits (C06)"]
-    ctx.proofs(THEOREMS, gen_files=["GenCommit.v"])
+    ctx.proofs(THEOREMS, gen_files=["GenCommit.v", "GenFileLock.v"])
     ctx.allow_axioms([])
     quick = ctx.tier == "quick"
+    import time as _t
+    _t0 = _t.time()
+    ctx.stats["phase_s"] = {}
+
+    def _mark(name: str) -> None:
+        nonlocal _t0
+        ctx.stats["phase_s"][name] = round(_t.time() - _t0, 1)
+        _t0 = _t.time()
+    _mark("proofs")
     runs: List[Tuple[Dict[str, Any], Any, P.CaseResult]] = []
     # 1. enumerated schedules, 2 committers, frozen clock first (the adversarial one), then tick
     for clock in (["frozen", "tick"] if quick else ["frozen", "coarse", "tick"]):
@@ -358,8 +599,7 @@ def run(ctx) -> None:
         ops = OPSETS3[i % len(OPSETS3)]
         case = {"ops": ops, "clock": ctx.rng.choice(["frozen", "coarse", "tick"]), "topology": ctx.rng.choice(["separate", "shared"])}
         seed = ctx.rng.randrange(1 << 30)
-        import random as _r
-        res = P.run_case(ctx.scratch, _fix_case(case), lambda sc, seed=seed: S.random_chooser(_r.Random(seed), 0.35), tag="c01r")
+        res = _run(ctx, case, lambda sc, seed=seed: S.random_chooser(_r.Random(seed), 0.35), tag="c01r")
         runs.append((case, [("random", seed)], res))
     # 4. the file lock at open / flock granularity: lock hand-off among three committers (local backend)
     hand = [o for o in OPSETS3 if len(o) == 3][:1] + [[{"kind": "append", "rows": [{"x": 100 * (i + 1)}]} for i in range(3)]]
@@ -367,10 +607,73 @@ def run(ctx) -> None:
         case = {"ops": ops, "clock": "tick", "topology": "separate", "fine_locks": True}
         scripts = lock_handoff_scripts(3)
         for sc_ in (scripts if not quick else scripts[::2]):
-            res = P.run_case(ctx.scratch, _fix_case(case), script_chooser(sc_), tag="c01h")
+            res = _run(ctx, case, script_chooser(sc_), tag="c01h")
             runs.append((case, [("script", sc_)], res))
-    ctx.stats["lock_handoff_schedules"] = sum(1 for _c, d, _r in runs if d and d[0][0] == "script")
+    _mark("in-process schedules")
+    # 4b. ... and at the granularity of every primitive on the lock file: the window inside release()
+    for ops in hand[1:]:
+        case = {"ops": ops, "clock": "tick", "topology": "separate", "fine_locks": "all"}
+        scripts = release_window_scripts(3, ["flip", "metaw"])
+        for sc_ in scripts:
+            res = _run(ctx, case, script_chooser(sc_), tag="c01w")
+            runs.append((case, [("script", sc_)], res))
+    _mark("release-window schedules")
+    # 5. PROCESS TOPOLOGIES (local filesystem): the committers are placed in OS processes -- several handles in one process
+    #    next to handles in other processes, one process per handle -- and driven by the same deterministic scheduler
+    try:
+        # 5a. contention inside the critical section: X parked before its metadata write / fence / flip / release, every
+        #     other committer then tries the lock (in every order), for every placement of X, Y, Z in the processes
+        stops = ["flip", "metaw"] if quick else ["flip", "metaw", "fence", "release"]
+        for ops in hand:
+            for procs in PROC_TOPOLOGIES[3]:
+                for handles in (["separate"] if quick else ["separate", "shared"]):
+                    case = {"ops": ops, "clock": "tick", "topology": handles, "procs": procs}
+                    for sc_ in contention_scripts(3, stops):
+                        res = _run(ctx, case, script_chooser(sc_), tag="c01t")
+                        runs.append((case, [("script", sc_)], res))
+        # 5a'. the release window across processes
+        for procs in PROC_TOPOLOGIES[3][:2 if quick else 3]:
+            case = {"ops": hand[1], "clock": "tick", "topology": "separate", "procs": procs, "fine_locks": "all"}
+            scripts = release_window_scripts(3, ["flip"] if quick else ["flip", "metaw"])
+            for sc_ in scripts:
+                res = _run(ctx, case, script_chooser(sc_), tag="c01t")
+                runs.append((case, [("script", sc_)], res))
+        # 5d. a process dies inside its critical section (SIGKILL of the worker, after the fence / before the flip): the kernel
+        #      drops its lock, the others commit; the dead committer is not reflected
+        for procs, victim in (([[0, 1], [2]], "A2"), ([[0], [1, 2]], "A1")) if quick else \
+                (([[0, 1], [2]], "A2"), ([[0], [1, 2]], "A1"), ([[0], [1, 2]], "A2"), ([[0], [1], [2]], "A1")):
+            for stop in ("flip", "fence"):
+                case = {"ops": hand[1], "clock": "tick", "topology": "separate", "procs": procs, "kill": {"actor": victim, "stop": stop}}
+                res = _run(ctx, case, dev_chooser({}), tag="c01k")
+                runs.append((case, [], res))
+        # 5b. two committers in two processes (and both in one worker process): bounded-preemption enumeration
+        for ops in (OPSETS[:4] if quick else OPSETS):
+            for procs in PROC_TOPOLOGIES[2][:1 if quick else 2]:
+                case = {"ops": ops, "clock": "frozen", "topology": "separate", "procs": procs}
+                for dev, res in explore(ctx, case, 2, 10 if quick else 150):
+                    runs.append((case, dev, res))
+        # 5c. random schedules over random placements of 3-4 committers
+        for i in range(8 if quick else 200):
+            ops = OPSETS3[i % len(OPSETS3)]
+            case = {"ops": ops, "clock": ctx.rng.choice(["frozen", "coarse", "tick"]), "topology": ctx.rng.choice(["separate", "separate", "shared"]),
+                    "procs": ctx.rng.choice(PROC_TOPOLOGIES[len(ops)])}
+            seed = ctx.rng.randrange(1 << 30)
+            res = _run(ctx, case, lambda sc, seed=seed: S.random_chooser(_r.Random(seed), 0.35), tag="c01q")
+            runs.append((case, [("random", seed)], res))
+    finally:
+        _close_pool()
+    _mark("process-topology schedules")
+    ctx.stats["process_topology_schedules"] = sum(1 for c, _d, _r in runs if c.get("procs") is not None)
+    ctx.stats["process_topologies"] = sorted({repr(c["procs"]) + "/" + c.get("topology", "separate") for c, _d, _r in runs if c.get("procs") is not None})
+    harness_trouble = [r.deadlock for _c, _d, r in runs if r.deadlock and r.deadlock.startswith("harness:")]
+    if harness_trouble:
+        ctx.proof_problems.append("process-topology harness: " + harness_trouble[0][:600])
+    ctx.stats["lock_handoff_schedules"] = sum(1 for c, d, _r in runs if d and d[0][0] == "script" and c.get("fine_locks") is True)
+    ctx.stats["release_window_schedules"] = sum(1 for c, d, _r in runs if d and d[0][0] == "script" and c.get("fine_locks") == "all")
+    ctx.stats["contention_script_schedules"] = sum(1 for c, d, _r in runs if d and d[0][0] == "script" and c.get("procs") is not None and not c.get("fine_locks"))
     ctx.stats["schedules"] = len(runs)
+    ctx.stats["process_deaths"] = sum(1 for _c, _d, r in runs for e in getattr(r, "locklog", []) if e["prim"] == "kill")
+    ctx.stats["runs_cut_by_deadlock"] = sum(1 for _c, _d, r in runs if r.deadlock)
     ctx.stats["conflict_retries_observed"] = sum(1 for _c, _d, r in runs for e in r.log if e["op"] == "Sleep")
     ctx.stats["by_clock"] = {c: sum(1 for k, _d, _r in runs if k["clock"] == c) for c in ("frozen", "coarse", "tick")}
     if runs:
@@ -380,6 +683,7 @@ def run(ctx) -> None:
         check_runs(ctx, "commit-trace", runs)
     except RuntimeError as e:
         ctx.proof_problems.append("model evaluation failed: " + str(e)[:800])
+    _mark("oracles + model evaluation")
 
 
 def replay(ctx, payload) -> int:
@@ -388,13 +692,15 @@ def replay(ctx, payload) -> int:
         print("replay: no concrete case in payload")
         return 2
     dev = payload["case"].get("deviations", [])
-    if dev and dev[0][0] == "script":
-        res = P.run_case(ctx.scratch, _fix_case(case), script_chooser([tuple(x) for x in dev[0][1]]), tag="replay")
-    elif dev and dev[0][0] == "random":
-        import random as _r
-        res = P.run_case(ctx.scratch, _fix_case(case), lambda sc: S.random_chooser(_r.Random(dev[0][1]), 0.35), tag="replay")
-    else:
-        res = P.run_case(ctx.scratch, _fix_case(case), dev_chooser({int(i): a for i, a in dev}), tag="replay")
+    try:
+        if dev and dev[0][0] == "script":
+            res = _run(ctx, case, script_chooser([tuple(x) for x in dev[0][1]]), tag="replay")
+        elif dev and dev[0][0] == "random":
+            res = _run(ctx, case, lambda sc: S.random_chooser(_r.Random(dev[0][1]), 0.35), tag="replay")
+        else:
+            res = _run(ctx, case, dev_chooser({int(i): a for i, a in dev}), tag="replay")
+    finally:
+        _close_pool()
     why = serial_oracle(case, res)
     print("replay:", "STILL FAILS: " + why if why else "passes now")
     return 1 if why else 0
